@@ -883,8 +883,124 @@ func init() {
 			}
 			vsched.Settle()
 			if vsched.Ctr(cOkA) == 0 && vsched.Ctr(cOkB) == 0 {
-				fail("C01.held-after-release", "A released its lock and tried TryLock(write) at once: refused, although the only other thread never acquired the lock (its single TryLock was refused too): the lock outlived its holder's first release call")
+				fail("held-after-release", "A released its lock and tried TryLock(write) at once: refused, although the only other thread never acquired the lock (its single TryLock was refused too): the lock outlived its holder's first release call")
 			}
+		},
+	})
+	eng.Register(&eng.Scenario{
+		Name: "csync-two-rounds", Props: []string{"C02", "C01"}, MustFinish: true, ObsNames: stdObs,
+		Doc:   "Mutex / RWMutex (choice), two rounds on one lock: round 1 - a cancellable waiter is parked behind a holder; the holder releases while the waiter's context is cancelled (every interleaving); round 2, once quiet - the lock is taken again (TryLock), a new waiter parks behind it, the holder releases: whatever round 1 left behind (a counter, a flag), the new waiter must be granted",
+		Quick: eng.Bounds{PB: 2}, Thorough: eng.Bounds{PB: 3},
+		Body: func() {
+			bg := context.Background()
+			ctx, cancel := context.WithCancel(bg)
+			if vsched.Choose(2) == 0 {
+				var m csync.Mutex
+				rel, _ := m.Lock(bg)
+				acquired(true)
+				T("WC", func() { useMutex(&m, ctx, true) })
+				vsched.Settle()
+				T("H", func() { releasing(true); rel() })
+				T("C", func() { cancel() })
+				vsched.Settle()
+				r2, ok := m.TryLock()
+				if !ok {
+					fail("lock-leaked", "round 2: TryLock refused on a mutex nobody holds")
+					return
+				}
+				acquired(true)
+				T("W3", func() { useMutex(&m, bg, false) })
+				vsched.Settle()
+				releasing(true)
+				r2()
+				finalProbeMutex(&m)
+				return
+			}
+			var m csync.RWMutex
+			hw := vsched.Choose(2) == 0
+			rel, _ := m.Lock(bg, hw)
+			acquired(hw)
+			T("WC", func() { useRW(&m, ctx, true, true) })
+			vsched.Settle()
+			T("H", func() { releasing(hw); rel() })
+			T("C", func() { cancel() })
+			vsched.Settle()
+			r2, ok := m.TryLock(true)
+			if !ok {
+				fail("lock-leaked", "round 2: TryLock(write) refused on an RWMutex nobody holds")
+				return
+			}
+			acquired(true)
+			T("W3", func() { useRW(&m, bg, true, false) })
+			T("R3", func() { useRW(&m, bg, false, false) })
+			vsched.Settle()
+			releasing(true)
+			r2()
+			finalProbeRW(&m)
+		},
+	})
+	eng.Register(&eng.Scenario{
+		Name: "csync-cancel-trace", Props: []string{"C02", "C01"}, MustFinish: true, ObsNames: stdObs,
+		Doc:   "RWMutex read-held by the main thread: thread A = Lock(write) with a context that is cancelled while it waits, then at once TryLock(read); thread B = TryLock(read) + release at any moment: A is the only writer there ever is, so once its Lock has returned context.Canceled the lock behaves as if that call had never been made - A's read attempt must be granted",
+		Quick: eng.Bounds{PB: 2}, Thorough: eng.Bounds{PB: 4},
+		Body: func() {
+			bg := context.Background()
+			var m csync.RWMutex
+			rel, _ := m.Lock(bg, false)
+			acquired(false)
+			ctx, cancel := context.WithCancel(bg)
+			T("A", func() {
+				label("RWMutex.Lock(write)")
+				r, err := m.Lock(ctx, true)
+				label("")
+				if err == nil {
+					fail("exclusion", "Lock(write) was granted while the main thread holds a read lock")
+					r()
+					return
+				}
+				rr, ok := m.TryLock(false)
+				if !ok {
+					fail("C02.cancel-trace", "Lock(write) returned %v; the same goroutine's TryLock(read) right afterwards was refused although no writer holds or waits (it was the only writer): the cancelled call left a trace", err)
+					return
+				}
+				rr()
+			})
+			T("B", func() { tryRW(&m, false, false) })
+			T("C", func() { cancel() })
+			vsched.Settle()
+			releasing(false)
+			rel()
+			finalProbeRW(&m)
+		},
+	})
+	eng.Register(&eng.Scenario{
+		Name: "csync-shared-rlocker", Props: []string{"C01", "C02"}, MustFinish: true, ObsNames: stdObs,
+		Doc:   "RWMutex: one RLocker() value shared by two goroutines (each Lock; hold; Unlock) and a writer (Lock or TryLock, choice): a reader and the writer never hold together, nobody stays parked, the lock ends free",
+		Quick: eng.Bounds{PB: 3}, Thorough: eng.Bounds{PB: 4},
+		Body: func() {
+			bg := context.Background()
+			var m csync.RWMutex
+			rl := m.RLocker()
+			wTry := vsched.Choose(2) == 1
+			for i := 0; i < 2; i++ {
+				T("G", func() {
+					label("RLocker.Lock")
+					rl.Lock()
+					label("")
+					acquired(false)
+					vsched.Point()
+					releasing(false)
+					rl.Unlock()
+				})
+			}
+			T("W", func() {
+				if wTry {
+					tryRW(&m, true, false)
+				} else {
+					useRW(&m, bg, true, false)
+				}
+			})
+			finalProbeRW(&m)
 		},
 	})
 	eng.Register(&eng.Scenario{
